@@ -166,15 +166,25 @@ def stageCost (t : Nat) (x : Vec α ns) (u : Vec α nc) : α :=
 def ctrl (g : Gain α ns nc) (t : Nat) (x : Vec α ns) : Vec α nc :=
   vadd (vadd (mulVec g.K (vsub x (xbar t))) g.k) (ubar t)
 
-/-- forward loop from time `t` (= clock) at state `x`: the states `x_{t+1} …`, the inputs `u_t …`, the cost -/
-def fwFrom : Nat → Vec α ns → List (Gain α ns nc) → List (Vec α ns) × List (Vec α nc) × α
-  | _, _, [] => ([], [], k 0)
-  | t, x, g :: gs =>
+/-- forward loop: iteration `t` runs with the system clock at `clk` (after `reset()` the two coincide);
+returns the states `x_{t+1} …`, the inputs `u_t …`, the accumulated cost -/
+def fwFrom : Nat → Nat → Vec α ns → List (Gain α ns nc) → List (Vec α ns) × List (Vec α nc) × α
+  | _, _, _, [] => ([], [], k 0)
+  | clk, t, x, g :: gs =>
     let u := ctrl xbar ubar g t x
     let c := stageCost P t x u
-    let x' := S.f t x u
-    let r := fwFrom (t+1) x' gs
+    let x' := S.f clk x u
+    let r := fwFrom (clk+1) (t+1) x' gs
     (x' :: r.1, u :: r.2.1, c + r.2.2)
+
+/-- SPECIFICATION (not code): apply an arbitrary input list from state `x` at time `t` (system clock = step
+index): the states reached and the sum of the stage costs `Σ ½ τᵀQ_tτ + p_tᵀτ`. -/
+def simulate : Nat → Vec α ns → List (Vec α nc) → List (Vec α ns) × α
+  | _, _, [] => ([], k 0)
+  | t, x, u :: us =>
+    let x' := S.f t x u
+    let r := simulate (t+1) x' us
+    (x' :: r.1, stageCost P t x u + r.2)
 
 end
 
@@ -185,20 +195,50 @@ structure Out (α : Type) (ns nc : Nat) where
   cost : α
   gains : List (Gain α ns nc)
 
+/-- `System.reset()`: `_t.fill_(0)` -/
+def resetClock (_clk : Nat) : Nat := 0
+
+/-- `LQR.forward(x_init, dt, u_traj)` once the two `system.reset()` calls have put the clock to `c1`
+(before `runsys`) and `c2` (before the forward loop). -/
+def lqrAt {ns nc : Nat} (sol : Solver α ns nc) (S : Sys α ns nc) (P : Prob α ns nc) (dt : Nat)
+    (x0 : Vec α ns) (ubar : Nat → Vec α nc) (c1 c2 : Nat) : Out α ns nc :=
+  let xl := rollFrom S ubar c1 P.T x0
+  let xbar := nth xl
+  let gs := (bwFrom sol S P dt xbar ubar 0 P.T).2
+  let r := fwFrom S P xbar ubar c2 0 x0 gs
+  ⟨x0 :: r.1, r.2.1, r.2.2, gs⟩
+
 /-- `LQR.forward(x_init, dt, u_traj)`: `reset(); runsys; backward loop; reset(); forward loop`.
 `ubar = u_traj` (zeros when `u_traj is None`). Both passes start from clock 0 whatever the clock was. -/
 def lqr {ns nc : Nat} (sol : Solver α ns nc) (S : Sys α ns nc) (P : Prob α ns nc) (dt : Nat)
     (x0 : Vec α ns) (ubar : Nat → Vec α nc) : Out α ns nc :=
-  let xl := rollFrom S ubar 0 P.T x0
-  let xbar := nth xl
-  let gs := (bwFrom sol S P dt xbar ubar 0 P.T).2
-  let r := fwFrom S P xbar ubar 0 x0 gs
-  ⟨x0 :: r.1, r.2.1, r.2.2, gs⟩
+  lqrAt sol S P dt x0 ubar (resetClock 0) (resetClock 0)
 
-/-- The clock: a solve entered with the clock at `clk` leaves it at `T` (`reset()` then `T` forward calls). -/
+/-- The call as a transition of the system object's clock: entered with the clock at `clk`, the first
+`reset()` puts it to 0, `runsys` advances it `T-1` times, (`set_refpoint` may write it), the second `reset()`
+puts it to 0 again and the `T` forward calls leave it at `T`. -/
 def lqrCall {ns nc : Nat} (sol : Solver α ns nc) (S : Sys α ns nc) (P : Prob α ns nc) (dt : Nat)
-    (x0 : Vec α ns) (ubar : Nat → Vec α nc) (_clk : Nat) : Out α ns nc × Nat :=
-  (lqr sol S P dt x0 ubar, P.T)
+    (x0 : Vec α ns) (ubar : Nat → Vec α nc) (clk : Nat) : Out α ns nc × Nat :=
+  let c1 := resetClock clk
+  let c2 := resetClock (c1 + (P.T - 1))
+  (lqrAt sol S P dt x0 ubar c1 c2, c2 + P.T)
+
+/-- a history on one system object: solves (each with its own problem, start, nominal) interleaved with
+arbitrary clock writes (`systime = v`, `reset(v)`, forward calls) -/
+inductive Op (α : Type) (ns nc : Nat) where
+  | solve (P : Prob α ns nc) (dt : Nat) (x0 : Vec α ns) (ubar : Nat → Vec α nc)
+  | setClock (v : Nat)
+  | forward (n : Nat)
+
+/-- run a history from clock `clk`; returns the results of the solves in order and the final clock -/
+def runHistory {ns nc : Nat} (sol : Solver α ns nc) (S : Sys α ns nc) : List (Op α ns nc) → Nat → List (Out α ns nc) × Nat
+  | [], clk => ([], clk)
+  | .solve P dt x0 ubar :: rest, clk =>
+    let r := lqrCall sol S P dt x0 ubar clk
+    let q := runHistory sol S rest r.2
+    (r.1 :: q.1, q.2)
+  | .setClock v :: rest, _ => runHistory sol S rest v
+  | .forward n :: rest, clk => runHistory sol S rest (clk + n)
 
 /-- list of inputs as `u_traj` -/
 def ofList {n : Nat} (l : List (Vec α n)) : Nat → Vec α n := nth l
